@@ -35,7 +35,30 @@ def sample_value(t, gen):
         if gen.get("defaults"):
             v = hmode.with_defaults(t, v, gen["defaults"])
         return v
-    return g.sample(t)
+    v = g.sample(t)
+    return zeroed(t, v) if gen.get("zero") else v
+
+
+def zeroed(t, v):
+    """the value family 'all zeros / empty texts' (same shapes)"""
+    k = t[0]
+    if v is None:
+        return None
+    if k == "scalar":
+        return 0.0 if t[1].startswith("Float") else 0
+    if k == "string":
+        return ""
+    if k == "struct":
+        return {fn: zeroed(ft, v[fn]) for fn, ft in t[2]}
+    if k == "array":
+        return [zeroed(("array", t[1], t[2][1:], None), x) for x in v] if len(t[2]) > 1 else [zeroed(t[1], x) for x in v]
+    if k == "ref":
+        return zeroed(t[1], v)
+    if k == "uref":
+        name, x = v
+        m = next(m for m in t[2] if tg.build(m).__name__ == name)
+        return (name, zeroed(m, x))
+    return v
 
 
 def norm_what(what):
@@ -279,6 +302,8 @@ def plan_hybrid(pid, tr, sd):
                 [("assign_nested", 0, "same"), ("move", "other"), ("setx", 2), ("copy", "default")],
                 [("assign_ref", 0, "other"), ("set", 0)],
                 [("move_nested", 1), ("move", "same"), ("assign_nested", 1, "other")],
+                [("assign_ref", 0, "same"), ("assign_ref_plain", 0, "raw"), ("set", 0), ("assign_ref_plain", 0, "none")],
+                [("assign_ref_plain", 1, "raw"), ("assign_ref", 1, "same"), ("assign_ref_plain", 1, "none"), ("assign_ref", 0, "same")],
             ]
             if tr == "thorough":
                 hs += [
@@ -298,6 +323,8 @@ def plan_hybrid(pid, tr, sd):
             gs = [g0, dict(g0, defaults="all"), dict(g0, defaults="nested"), dict(variant=1, dim=1), dict(variant=0, dim=0), dict(variant=2, dim=3)]
             if tr == "quick":
                 gs = gs[:3] + [gs[3 + i % 3]]
+            if any(d is not None and ft[0] == "array" for _, ft, d in spec[2]):
+                gs = gs + [dict(g0, defaults="bcast"), dict(variant=0, dim=1), dict(variant=0, dim=3)]
             for k, g in enumerate(gs):
                 jobs.append((pid, "c19h", label, spec, g, dict(pls[(i + k) % 2], copy_to_cpu=(k % 2 == 0))))
                 if tr == "thorough":
@@ -442,6 +469,8 @@ def plan_xo(pid, tr, sd):
                 jobs.append((pid, "c19j", label, t, gens[0], dict(pl)))
             for g in rot(i, gens_more[:3], 1 if tr == "quick" else 3):
                 jobs.append((pid, "c19j", label, t, g, dict(pls[i % 2])))
+            # zeros and empty texts (values a truthiness test confuses with "absent")
+            jobs.append((pid, "c19j", label, t, dict(variant=0, dim=2, zero=True), dict(pls[(i + 1) % 2])))
             if tr == "thorough" or i % 3 == 0:
                 # an arbitrary (possibly too small) free chunk: the solver forks on every allocation
                 jobs.append((pid, "c19j", label, t, gens[0], dict(placement="default", N=1, alignment=8, tight=True, second="grown", max_paths=200)))
